@@ -1,7 +1,7 @@
 (** C08 — correspondence cases: an operation history with the outputs the Go
     implementation (db.NewLocalDB over a pre-populated database) returned. *)
 From Coq Require Import List NArith ZArith Bool String Ascii.
-From C33 Require Import Lib.Harness Lib.Bytes Lib.OMap C07.Model C07.Spec C07.Check C08.Model C08.Spec.
+From C33 Require Import Lib.Harness Lib.Bytes Lib.OMap C07.Model C07.Spec C07.Check C08.Model C08.Spec C08.HModel C08.HSpec.
 Import ListNotations.
 
 (** * compact literals for histories (one string token per history keeps the case files fast to parse)
@@ -65,10 +65,61 @@ Definition parse_out (f : string) : out :=
   | EmptyString => RFuel
   end.
 Definition pouts (s : string) : list out := map parse_out (fields ";"%char s).
+
+(** handler histories (blockchain/localdb.go), each request terminated by ';':
+    n0 | n1 (EventLocalNew, readOnly) | c<id> (Close) | b<id> (Begin) | m<id> (Commit) | r<id> (Rollback) |
+    s<id>:<key>=<value>,... | g<id>:<key>,... | l<id>:<prefix>:<key>:<count>:<dir> | k<id>:<prefix>
+    replies: i<id> | o | e<0..3> | v<value or ->,... | t<item>,... | k<count> | f *)
+Definition parse_kv (f : string) : bytes * bytes :=
+  let ps := split "="%char f in (hx (nth 0 ps ""), hx (nth 1 ps "")).
+
+Definition parse_hop (f : string) : hop :=
+  match f with
+  | String c rest =>
+      let ps := split ":"%char rest in
+      let i := znum (nth 0 ps "") in
+      if Ascii.eqb c "n"%char then HNew (Ascii.eqb (match rest with String a _ => a | _ => "0"%char end) "1"%char)
+      else if Ascii.eqb c "c"%char then HClose i
+      else if Ascii.eqb c "b"%char then HBegin i
+      else if Ascii.eqb c "m"%char then HCommit i
+      else if Ascii.eqb c "r"%char then HRollback i
+      else if Ascii.eqb c "s"%char then HSet i (map parse_kv (fields ","%char (nth 1 ps "")))
+      else if Ascii.eqb c "g"%char then HGet i (map hx (fields ","%char (nth 1 ps "")))
+      else if Ascii.eqb c "l"%char then
+        HList i (hx (nth 1 ps "")) (hx (nth 2 ps "")) (znum (nth 3 ps "")) (znum (nth 4 ps ""))
+      else HCount i (hx (nth 1 ps ""))
+  | EmptyString => HNew false
+  end.
+Definition phops (s : string) : list hop := map parse_hop (fields ";"%char s).
+
+Definition parse_val (f : string) : option bytes :=
+  match f with
+  | String c _ => if Ascii.eqb c "-"%char then None else Some (hx f)
+  | EmptyString => None
+  end.
+
+Definition parse_hout (f : string) : hout :=
+  match f with
+  | String c rest =>
+      if Ascii.eqb c "i"%char then HId (znum rest)
+      else if Ascii.eqb c "o"%char then HOk
+      else if Ascii.eqb c "e"%char then
+        HErr (if Ascii.eqb (match rest with String a _ => a | _ => "3"%char end) "0"%char then ENoPtr
+              else if Ascii.eqb (match rest with String a _ => a | _ => "3"%char end) "1"%char then ENotInTx
+              else if Ascii.eqb (match rest with String a _ => a | _ => "3"%char end) "2"%char then EPanic
+              else EOther)
+      else if Ascii.eqb c "v"%char then HVals (map parse_val (fields ","%char rest))
+      else if Ascii.eqb c "t"%char then HItems (map hx (fields ","%char rest))
+      else if Ascii.eqb c "k"%char then HCnt (znum rest)
+      else HFuel
+  | EmptyString => HFuel
+  end.
+Definition phouts (s : string) : list hout := map parse_hout (fields ";"%char s).
 Close Scope string_scope.
 
 Inductive case :=
-| CHist (ro : bool) (base : store) (ops : list op) (impl : list out).
+| CHist (ro : bool) (base : store) (ops : list op) (impl : list out)
+| CHand (base : store) (hops : list hop) (impl : list hout).   (* through the EventLocal* handlers of a node *)
 
 Definition out_eqb (a b : out) : bool :=
   match a, b with
@@ -96,6 +147,51 @@ Definition kf_of (o : option op) : N :=
   | _ => 0%N
   end.
 
+Definition herr_eqb (a b : herr) : bool :=
+  match a, b with
+  | ENoPtr, ENoPtr | ENotInTx, ENotInTx | EPanic, EPanic | EOther, EOther => true
+  | _, _ => false
+  end.
+
+Definition hout_eqb (a b : hout) : bool :=
+  match a, b with
+  | HId x, HId y => (x =? y)%Z
+  | HOk, HOk => true
+  | HErr x, HErr y => herr_eqb x y
+  | HVals x, HVals y => list_eqb (option_eqb bytes_eqb) x y
+  | HItems x, HItems y => lb_eqb x y
+  | HCnt x, HCnt y => (x =? y)%Z
+  | _, _ => false
+  end.
+
+(** the request at the first position where the implementation leaves the specification, with its reply *)
+Fixpoint hfirst_div (hs : list hop) (a b : list hout) : option (hop * hout) :=
+  match hs, a, b with
+  | h :: hs', x :: a', y :: b' => if hout_eqb x y then hfirst_div hs' a' b' else Some (h, x)
+  | _, _, _ => None
+  end.
+
+(** known finding 1 as above; known finding 2: the first divergence is an EventLocalPrefixCount asked on behalf
+    of a transaction id, and the reply is the count of the raw block-store database *)
+Definition hkf_of (base : store) (o : option (hop * hout)) : N :=
+  match o with
+  | Some (HList _ p _ _ _, _) => if prefix_ok p then 0%N else 1%N
+  | Some (HCount i p, HCnt n) =>
+      if negb (prefix_ok p) then 1%N
+      else if (0 <? i)%Z && (n =? spec_count [base] p)%Z then 2%N else 0%N
+  | _ => 0%N
+  end.
+
+Fixpoint count_new (hs : list hop) : nat :=
+  match hs with [] => O | HNew _ :: tl => S (count_new tl) | _ :: tl => count_new tl end.
+
+(** per transaction id: the replies it got are those of its own specification database *)
+Definition per_id_ok (base : store) (hs : list hop) (impl : list hout) : bool :=
+  forallb (fun k => let i := Z.of_nat k in
+             list_eqb hout_eqb (replies_for i hs impl)
+                      (serve_all sdb s_step (new_spec base (ro_of i 0%Z hs)) (reqs_for i hs)))
+          (seq 1 (count_new hs)).
+
 Definition check_case (c : case) : verdict :=
   match c with
   | CHist ro base ops impl =>
@@ -104,4 +200,11 @@ Definition check_case (c : case) : verdict :=
       let m := wf_storeb base && list_eqb out_eqb model impl in
       let s := list_eqb out_eqb impl spec in
       (m, s, kf_of (first_div ops impl spec))
+  | CHand base hs impl =>
+      let model := run_handlers base hs in
+      let spec := run_hspec base hs in
+      let m := wf_storeb base && list_eqb hout_eqb model impl in
+      let s := list_eqb hout_eqb impl spec in
+      let s := if s then per_id_ok base hs impl else false in
+      (m, s, hkf_of base (hfirst_div hs impl spec))
   end.
